@@ -142,6 +142,19 @@ def make_components():
         return "coordNum {\n%s%s  cutoff %s\n  group2CenterOnly on\n%s" % (grp("group1", a), grp("group2", b), num(rng.uniform(1.5, 3.0)), extra), [a, b]
     C["coordNum_g2center"] = ("scalar", coordnum_g2center)
 
+    def coordnum_tol(rng, P, extra=""):
+        a, b = two(rng)
+        b = b + rng.sample([i for i in range(NAT) if i not in a and i not in b], 2)
+        return "coordNum {\n%s%s  cutoff %s\n  tolerance %s\n  pairListFrequency 1\n%s" % (
+            grp("group1", a), grp("group2", b), num(rng.uniform(2.5, 4.0)), num(rng.choice([0.001, 0.01, 0.05])), extra), [a, b]
+    C["coordNum_tol"] = ("scalar", coordnum_tol)
+
+    def selfcoordnum_tol(rng, P, extra=""):
+        a = many(rng, 3, 6)
+        return "selfCoordNum {\n%s  cutoff %s\n  tolerance %s\n  pairListFrequency 1\n%s" % (
+            grp("group1", a), num(rng.uniform(2.5, 4.0)), num(rng.choice([0.001, 0.01, 0.05])), extra), [a]
+    C["selfCoordNum_tol"] = ("scalar", selfcoordnum_tol)
+
     def selfcoordnum(rng, P, extra=""):
         a = many(rng, 3, 6)
         return "selfCoordNum {\n%s  cutoff %s\n%s" % (grp("group1", a), num(rng.uniform(1.5, 3.0)), extra), [a]
